@@ -127,7 +127,7 @@ Qed.
 Theorem erat_model_spec l1 maxKB : 16 <= maxKB -> maxKB <= 8192 ->
   forall s e, 7 <= s -> s <= e -> e <= MAX64 -> erat_model l1 maxKB s e = primes_between s e.
 Proof.
-  intros K1 K2 s e S1 S2 S3. unfold erat_model.
+  intros K1 K2 s e S1 S2 S3. unfold erat_model, erat_with.
   pose proof (initAlgorithms_admissible l1 maxKB s e K1 K2 S1 S2 S3) as A. cbn zeta in A.
   set (a := initAlgorithms l1 maxKB s e) in *.
   destruct A as (A1 & A2 & A3 & A4 & A5 & A6 & A7 & A8 & A9 & A10 & A11).
@@ -165,4 +165,41 @@ Proof.
   - intros x. rewrite filter_In, Hmem, In_primes_between, N.leb_le. destruct Hfirst as (_ & Hf1 & _). split.
     + intros ((Hp & H1 & H2) & H3). split; [exact H3|]. split; [exact H2|exact Hp].
     + intros (H1 & H2 & Hp). split; [split; [exact Hp|]; lia|exact H1].
+Qed.
+
+(** the kernel that produces its own sieving primes (SievingPrimes): same result, no specification inside the model *)
+Lemma erat_with_spec l1 maxKB pending s e : 16 <= maxKB -> maxKB <= 8192 -> 7 <= s -> s <= e -> e <= MAX64 ->
+  pending = primes_between 7 (N.sqrt e) -> erat_with pending l1 maxKB s e = primes_between s e.
+Proof. intros K1 K2 S1 S2 S3 ->. exact (erat_model_spec l1 maxKB K1 K2 s e S1 S2 S3). Qed.
+
+Lemma sqrt_lt_49 e : N.sqrt e < 7 -> primes_between 7 (N.sqrt e) = [].
+Proof. intros H. apply primes_between_empty. exact H. Qed.
+
+Lemma erat_rec_spec l1 maxKB : 16 <= maxKB -> maxKB <= 8192 ->
+  forall depth s e, 7 <= s -> s <= e -> e <= MAX64 -> e < 2 ^ (2 ^ N.of_nat (depth + 2)) ->
+  erat_rec depth l1 maxKB s e = primes_between s e.
+Proof.
+  intros K1 K2. induction depth as [|d IH]; intros s e S1 S2 S3 Hd; cbn [erat_rec].
+  - (* e < 2^4 = 16: sqrt e <= 3, no sieving primes *)
+    apply erat_with_spec; try assumption. symmetry. apply sqrt_lt_49.
+    change (2 ^ (2 ^ N.of_nat (0 + 2))) with 16 in Hd. assert (N.sqrt e * N.sqrt e <= e) by (apply N.sqrt_spec; lia). nia.
+  - apply erat_with_spec; try assumption.
+    destruct (N.ltb_spec (N.sqrt e) 7) as [Hlt|Hge]; [symmetry; apply sqrt_lt_49; exact Hlt|].
+    assert (Hsq : N.sqrt e * N.sqrt e <= e) by (apply N.sqrt_spec; lia).
+    apply IH; [lia|exact Hge|unfold MAX64 in *; nia|].
+    (* sqrt e < 2^(2^(d+2)) because e < 2^(2^(d+3)) = (2^(2^(d+2)))^2 *)
+    replace (N.of_nat (Datatypes.S d + 2)) with (N.of_nat (d + 2) + 1) in Hd by lia.
+    rewrite N.pow_add_r, N.pow_1_r in Hd. set (k := 2 ^ N.of_nat (d + 2)) in *.
+    rewrite N.mul_comm in Hd. change (2 * k) with (k + k)%N in Hd || replace (2 * k) with (k + k) in Hd by lia.
+    rewrite N.pow_add_r in Hd. set (P := 2 ^ k) in *.
+    destruct (N.lt_ge_cases (N.sqrt e) P) as [|Hc]; [assumption|exfalso].
+    pose proof (N.mul_le_mono _ _ _ _ Hc Hc). lia.
+Qed.
+
+Theorem erat_self_spec l1 maxKB : 16 <= maxKB -> maxKB <= 8192 ->
+  forall s e, 7 <= s -> s <= e -> e <= MAX64 -> erat_self l1 maxKB s e = primes_between s e.
+Proof.
+  intros K1 K2 s e S1 S2 S3. unfold erat_self. apply erat_rec_spec; try assumption.
+  change (2 ^ (2 ^ N.of_nat (6 + 2))) with (2 ^ 256). unfold MAX64 in S3.
+  apply N.le_lt_trans with 18446744073709551615; [exact S3|]. apply N.lt_trans with (2 ^ 64); [reflexivity|]. apply N.pow_lt_mono_r; lia.
 Qed.
